@@ -182,7 +182,7 @@ def model_spec(
         gene_ids = draw(st.lists(rich_gene_id().filter(lambda s: s not in ("and", "or", "AND", "OR") and "__COBRA_" not in s and "__cobra_escape__" not in s), min_size=min_genes, max_size=max_genes, unique=True)) if gprs else []
     comps = ["c", "e"] if (exchange_rich or draw(st.booleans())) else ["c"]
     if rich_meta and draw(st.booleans()):
-        comps = comps + [draw(st.sampled_from(["p", "m", "C_x", "nuc"]))]
+        comps = comps + [draw(st.sampled_from(["p", "mito", "C_x", "nuc"]))]  # never equal to a model id: compartments and the model share the SBML SId namespace
     mets = []
     for k, mid in enumerate(met_ids):
         comp = "e" if (exchange_rich and k == 0) else draw(st.sampled_from(comps))
